@@ -44,6 +44,14 @@ def one_dataset(ctx, rng, xr):
         A = A[..., 0]
     else:
         A, classes = gen.stack_spectra(rng, f, th, sizes, cls=cls)
+    if rng.random() < 0.15:
+        # millimetre sea states either side of the documented 1 mm mask of the spectral width
+        flat = A.reshape((-1,) + A.shape[len(sizes):])
+        for j in range(flat.shape[0]):
+            m0a = float(flat[j].sum()) * (dd if th is not None else 1.0) * float(np.mean(np.gradient(f.astype("float64"))) if len(f) > 1 else 1.0)
+            if m0a > 0 and rng.random() < 0.7:
+                flat[j] *= (10 ** rng.uniform(-3.5, -2.0) / 4.0) ** 2 / m0a
+        A = flat.reshape(A.shape)
     da = gen.make_da(A, f, th, names, sizes, dtype=edt, dt_s=dt_s)
     if th is not None and dmeta["full"] and len(th) > 2 and rng.random() < 0.3:
         # the circle may start anywhere: same labels stored from another starting direction (wrapping through 360)
@@ -245,6 +253,13 @@ def one_dataset(ctx, rng, xr):
         r = call(op, lambda: getattr(acc, op)(**kw))
         if r is not None:
             chk(op, get(r), ref, scale=us)
+    # components along any axis: theta is the bearing of the x axis
+    theta = float(rng.choice([0.0, 45.0, 180.0, 270.0, -30.0, float(rng.uniform(-360, 720))]))
+    ux, uy, us = I.stokes(E, f64, th, dd, I.k_deep(f64), theta=theta)
+    for op, ref in (("uss_x", ux), ("uss_y", uy)):
+        r = call(op + "_theta", lambda: getattr(acc, op)(theta=theta))
+        if r is not None:
+            chk(op + "_theta", get(r), ref, scale=us)
     ux, uy, us = I.stokes(E, f64, th, dd, kx)
     for op, ref in (("uss", us), ("uss_x", ux), ("uss_y", uy)):
         r = call(op + "_depth", lambda: getattr(acc, op)(depth=depth))
